@@ -203,6 +203,7 @@ impl Gen {
       retries: r.pick(&[0, 1, 2, 5]),
       magic: r.below(65536) as u16,
       offset: 0,
+      mm: 0,
     }
   }
 
